@@ -53,11 +53,11 @@ class Mon:
         from pydrobert.speech import filters as F, util as U
 
         for name in AREA:
-            monitor.attach(getattr(F, name), "get_impulse_response", post=self.post_npwin)
-        monitor.attach(F.GammaWindow, "get_impulse_response", post=self.post_gamma)
+            monitor.attach(getattr(F, name), "get_impulse_response", post=self.post_npwin, ambient=self.v)
+        monitor.attach(F.GammaWindow, "get_impulse_response", post=self.post_gamma, ambient=self.v)
         monitor.attach(F.GammaWindow, "__init__", post=self.post_gamma_init)
-        monitor.attach(U, "circshift_fourier", post=self.post_circ, pre=self.pre_circ, is_method=False)
-        monitor.attach(U, "gauss_quant", post=self.post_gauss, is_method=False)
+        monitor.attach(U, "circshift_fourier", post=self.post_circ, pre=self.pre_circ, is_method=False, ambient=self.v)
+        monitor.attach(U, "gauss_quant", post=self.post_gauss, is_method=False, ambient=self.v)
 
     def v(self, what, **kw):
         self.rec.violation(dict(what=what, case=self.case, **kw))
@@ -409,6 +409,27 @@ def run_case(case, rec, mon=None):
                 rec.count("gauss_affine_checks")
                 if not abs(z2 - (z * std + mu)) <= 1e-12 * (abs(z * std) + abs(mu)) + 1e-300:
                     mon.v("gauss_quant(%r, %r, %r) = %r is not mu + std*q(p) = %r" % (p, mu, std, z2, z * std + mu), check="gauss_affine", p=p, mu=mu, std=std)
+            if rng.random() < 0.2:
+                # location and scale as the caller's single-precision (or half-precision, integer, 0-d array) numbers, the location far
+                # from zero on the scale of the deviation: the quantile is still accurate to 1e-6 deviations (judged by the monitor)
+                kind_ = int(rng.integers(5))
+                std_ = float(np.float32(np.exp(rng.uniform(-3, 3))))
+                mu_ = float(np.float32(std_ * float(rng.choice([-1, 1])) * float(np.exp(rng.uniform(np.log(30), np.log(20000))))))
+                if kind_ == 0:
+                    tm, ts = np.float32(mu_), np.float32(std_)
+                elif kind_ == 1:
+                    tm, ts = np.float32(mu_), std_
+                elif kind_ == 2:
+                    tm, ts = np.array(mu_, dtype=np.float32), np.array(std_, dtype=np.float32)
+                elif kind_ == 3:
+                    tm, ts = int(round(mu_)), np.float32(std_)
+                else:
+                    tm, ts = np.float16(round(mu_ / std_ / 64) * 64 if abs(mu_ / std_) < 60000 else 1024.0), np.float16(1.0)
+                rec.count("gauss_quant_with_typed_location_and_scale")
+                try:
+                    U.gauss_quant(p, tm, ts) if rng.random() < 0.5 else U.gauss_quant(p, mu=tm, std=ts)
+                except Exception:
+                    pass  # recorded by the monitor
         rec.sample({"kind": kind, "n_probes": len(probes), "first": probes[:3], "last": probes[-3:]})
     elif kind == "angular":
         rng = rng_for(case["seed"], "C20", case["idx"])
